@@ -12,25 +12,37 @@ C07 — "An unresponsive client never blocks others; the router never deadlocks"
 clause → theorem (all over tables regenerated from /repo by gen target `sites`)
   at most its queue buffered, rest lost ............ bounded_queue, lossy_in_order (generic, Nexus/L3/Fifo)
       + every router→client send is non-blocking .... servers_never_block, workers_never_block_on_clients,
-                                                      blocking_client_sends, trySend_nonblocking
+                                                      realm_workers_never_block_on_clients,
+                                                      blocking_client_sends, rtr_waits_for_client_only_in_abort,
+                                                      trySend_nonblocking
   others not delayed by a stalled client ........... servers_never_block (dealer and broker never wait for a
                                                       client), dealer_broker_wait_for_nobody
   bounded exception: yield retry ................... retry_schedule (the handler's only timed wait; L2 covers
                                                       the cancellation at the deadline)
+  bounded exception: the constants ................. retry_constants (table (j) = the L2 model's constants)
   workers never wait in a cycle .................... no_wait_cycle_router, no_deadlocked_set_router
+  … and nobody waits for a worker that has left .... router_progress (generic: Nexus/L3/WpL3Progress),
+                                                      blocked_posters_reach_running_server
+                                                      (with C06.servers_keep_serving, C06.server_waits_classified)
       table facts the edge derivation rests on ...... all_ops_classified, all_sites_have_roles,
                                                       roles_closed_under_calls, sync_ops_covered,
                                                       idle_ops_are_inboxes, transport_close_releases_reader,
                                                       meta_peer_message_kinds
 What is and is not claimed: see the docstrings; progress itself ("eventually processed") is absence of
-wait cycles plus bounded waits under a fair Go scheduler (trusted base), and the completeness of the edge
-table rests on the extractor (go/types) and on `stall`'s runtime observation.
+wait cycles, servers that keep serving until the closer stops them, plus bounded waits under a fair Go
+scheduler (trusted base), and the completeness of the edge table rests on the extractor (go/types) and on
+`stall`'s runtime observation. The tables are taken with the records the patched generator adds for
+closures called in a second goroutine context (`allChanOps` …, Nexus/L3/WpL3Wait.lean).
 -/
 import Nexus.L3.Wait
 import Nexus.L3.Fifo
+import Nexus.L3.WpL3Wait
+import Nexus.L3.WpL3Progress
+import Nexus.Props.C06
+import Nexus.L2.Realm
 
 namespace Nexus.C07
-open Nexus.Gen.Sites Nexus.L3
+open Nexus.Gen.Sites Nexus.L3 Nexus.L3.WpL3
 
 /-! ### Non-blocking delivery -/
 
@@ -42,9 +54,9 @@ def isClientSend (o : ChanOp) : Bool := decide (o.op = .send) && decide (o.cls =
     goroutine (the `sync*` functions, `trySend`, and the closures posted to their action channels) is
     a `select` with a `default` branch: the dealer and the broker never wait for a client. -/
 theorem servers_never_block :
-    ∀ o ∈ chanOps, isClientSend o = true → (runsIn o .D || runsIn o .B) = true →
+    ∀ o ∈ allChanOps, isClientSend o = true → (runsIn o .D || runsIn o .B) = true →
       o.sel = .selDefault := by
-  have h : chanOps.all (fun o => !(isClientSend o && (runsIn o .D || runsIn o .B)) ||
+  have h : allChanOps.all (fun o => !(isClientSend o && (runsIn o .D || runsIn o .B)) ||
       decide (o.sel = .selDefault)) = true := by decide +kernel
   intro o ho h1 h2
   have := forall_of_all h o ho
@@ -52,37 +64,86 @@ theorem servers_never_block :
 
 /-- The sends to a client's outbound channel that are *not* non-blocking. -/
 def blockingClientSends : List Nat :=
-  (chanOps.filter fun o => isClientSend o && !decide (o.sel = .selDefault)).map (·.key)
+  (allChanOps.filter fun o => isClientSend o && !decide (o.sel = .selDefault)).map (·.key)
 
-/-- Exactly one: the ABORT of a refused attach, in the attaching goroutine, which holds no lock and
-    serves nobody else ("Blocking OK; this is session goroutine"). Since 9bf1a30 the WELCOME is sent,
-    non-blocking, by the session's handler. -/
+/-- One statement, `client.Send() <- &abortMsg` in the `sendAbort` closure of AttachClient: the ABORT
+    of a refused attach. It is executed in two goroutine contexts: by the attaching goroutine, which
+    holds no lock and serves nobody else ("Blocking OK; this is session goroutine"), and — because the
+    closure is also called inside the action AttachClient posts to the router goroutine (router closed,
+    unknown realm, realm auto-creation failed) — by the router goroutine. Since 9bf1a30 the WELCOME is
+    sent, non-blocking, by the session's handler. -/
 theorem blocking_client_sends :
-    blockingClientSends = [key! "router.router.AttachClient|send|client.Send()"] := by
+    blockingClientSends = [key! "router.router.AttachClient|send|client.Send()",
+                           key! "router.router.AttachClient|send|client.Send()@posted router.actionChan"] := by
   decide +kernel
 
-/-- No worker of the router — realm, dealer, broker, session handlers, meta handlers, call timers —
-    ever blocks on a client's queue. -/
+/-- The blocking client sends are that ABORT, run by the attaching goroutine or by the router
+    goroutine. (Restated: the earlier form claimed `[.A1]` only, because the generator attributed the
+    closure's sites to the function body; audit C: C07 (b)1.)
+
+    What this means for the property: the router goroutine can block on a client — on the peer of
+    an attach it refuses, if that peer's `Send()` channel has no room. It is the first message the
+    router ever sends to that peer (before the post AttachClient has only *received* HELLO; CHALLENGE
+    and WELCOME come later), so with the stock peers (local peer: a buffered channel of 64; socket
+    peers: a buffer of `outQueueSize`, drained by the peer's writer goroutine, which also receives when
+    that size is 0) the send finds room or a receiving writer and does not wait for the client; an
+    embedding program that attaches its own `wamp.Peer` with an unbuffered `Send()` channel and does
+    not read can stall the router goroutine, and with it AddRealm, RemoveRealm, Close and every Attach. The claim "no
+    worker ever blocks on a client" holds for the realm's workers (`realm_workers_never_block_on_clients`),
+    not for the router goroutine. -/
 theorem workers_never_block_on_clients :
-    ∀ o ∈ chanOps, isClientSend o = true → o.sel ≠ .selDefault →
-      siteRoles o.fn o.gctx o.garg = [.A1] := by
-  have h : chanOps.all (fun o => !(isClientSend o && !decide (o.sel = .selDefault)) ||
-      decide (siteRoles o.fn o.gctx o.garg = [.A1])) = true := by decide +kernel
+    ∀ o ∈ allChanOps, isClientSend o = true → o.sel ≠ .selDefault →
+      o.fn = key! "router.router.AttachClient" ∧
+      (siteRoles o.fn o.gctx o.garg = [.A1] ∨ siteRoles o.fn o.gctx o.garg = [.Rtr]) := by
+  have h : allChanOps.all (fun o => !(isClientSend o && !decide (o.sel = .selDefault)) ||
+      (Nat.beq o.fn (key! "router.router.AttachClient") &&
+        (decide (siteRoles o.fn o.gctx o.garg = [.A1]) || decide (siteRoles o.fn o.gctx o.garg = [.Rtr])))) = true := by
+    decide +kernel
   intro o ho h1 h2
   have := forall_of_all h o ho
-  simpa [h1, h2] using this
+  simp only [h1, h2, decide_false, Bool.not_false, Bool.and_self, Bool.not_true, Bool.false_or,
+    Bool.and_eq_true, Bool.or_eq_true, decide_eq_true_eq] at this
+  exact ⟨Nat.eq_of_beq_eq_true this.1, this.2⟩
 
-/-- Every message handed to a client (table (f)) goes through a non-blocking send, except that ABORT. -/
+/-- The workers of a realm and everything below the router goroutine. -/
+def realmWorkers : List Role := [.A2, .H, .MP, .R, .HM, .T, .D, .B, .Mem, .Srv, .Rd, .W]
+
+/-- No worker of a realm — realm goroutine, dealer, broker, session handlers, meta handlers, call
+    timers — nor an attach inside the realm's critical section ever blocks on a client's queue: every
+    send to a client that one of them can execute is a `select` with `default`. -/
+theorem realm_workers_never_block_on_clients :
+    ∀ o ∈ allChanOps, isClientSend o = true →
+      (∃ r ∈ realmWorkers, r ∈ siteRoles o.fn o.gctx o.garg) → o.sel = .selDefault := by
+  have h : allChanOps.all (fun o => !(isClientSend o &&
+      realmWorkers.any fun r => (siteRoles o.fn o.gctx o.garg).contains r) ||
+      decide (o.sel = .selDefault)) = true := by decide +kernel
+  intro o ho h1 ⟨r, hr, hr2⟩
+  have := forall_of_all h o ho
+  have hany : (realmWorkers.any fun r => (siteRoles o.fn o.gctx o.garg).contains r) = true :=
+    List.any_eq_true.mpr ⟨r, hr, by simpa using hr2⟩
+  rw [h1, hany] at this
+  simpa using this
+
+/-- Non-vacuity: the realm's workers do send to clients. -/
+example : (allChanOps.any fun o => isClientSend o &&
+    realmWorkers.any fun r => (siteRoles o.fn o.gctx o.garg).contains r) = true := by decide +kernel
+
+/-- Every message handed to a client (table (f)) goes through a non-blocking send, except that ABORT
+    (in its two contexts). -/
 theorem client_messages_nonblocking :
-    ∀ m ∈ msgSends, m.toMeta = false → m.nonBlocking = false →
-      m.key = key! "router.router.AttachClient|msg|send client Abort " := by
-  have h : msgSends.all (fun m => m.toMeta || m.nonBlocking ||
-      Nat.beq m.key (key! "router.router.AttachClient|msg|send client Abort ")) = true := by
+    ∀ m ∈ allMsgSends, m.toMeta = false → m.nonBlocking = false →
+      m.key = key! "router.router.AttachClient|msg|send client Abort " ∨
+      m.key = key! "router.router.AttachClient|msg|send client Abort @posted router.actionChan" := by
+  have h : allMsgSends.all (fun m => m.toMeta || m.nonBlocking ||
+      (Nat.beq m.key (key! "router.router.AttachClient|msg|send client Abort ") ||
+       Nat.beq m.key (key! "router.router.AttachClient|msg|send client Abort @posted router.actionChan"))) = true := by
     decide +kernel
   intro m hm h1 h2
   have := forall_of_all h m hm
-  simp only [h1, h2, Bool.false_or] at this
-  exact Nat.eq_of_beq_eq_true this
+  simp only [h1, h2, Bool.false_or, Bool.or_eq_true] at this
+  rcases this with h | h
+  · exact Or.inl (Nat.eq_of_beq_eq_true h)
+  · exact Or.inr (Nat.eq_of_beq_eq_true h)
 
 /-- `trySend` of broker and dealer is `select { case sess.Send() <- msg: default: }`. -/
 theorem trySend_nonblocking :
@@ -111,20 +172,20 @@ theorem lossy_in_order {μ : Type} (cap : Nat) (evs : List (Fifo.Ev μ)) :
 /-! ### The wait-for relation -/
 
 /-- Every channel operation of the three trees is classified by `opTargets`. -/
-theorem all_ops_classified : ∀ o ∈ chanOps, (opTargets o).isSome = true := by
-  have h : chanOps.all (fun o => (opTargets o).isSome) = true := by decide +kernel
+theorem all_ops_classified : ∀ o ∈ allChanOps, (opTargets o).isSome = true := by
+  have h : allChanOps.all (fun o => (opTargets o).isSome) = true := by decide +kernel
   exact forall_of_all h
 
 /-- Every site with a goroutine context is executed by at least one known role. -/
 theorem all_sites_have_roles :
-    (∀ o ∈ chanOps, (siteRoles o.fn o.gctx o.garg).isEmpty = false) ∧
-    (∀ c ∈ closeSites, (siteRoles c.fn c.gctx c.garg).isEmpty = false) ∧
+    (∀ o ∈ allChanOps, (siteRoles o.fn o.gctx o.garg).isEmpty = false) ∧
+    (∀ c ∈ allCloseSites, (siteRoles c.fn c.gctx c.garg).isEmpty = false) ∧
     (∀ g ∈ goSites, (siteRoles g.fn g.gctx g.garg).isEmpty = false) ∧
-    (∀ m ∈ msgSends, (siteRoles m.fn m.gctx m.garg).isEmpty = false) := by
-  have h1 : chanOps.all (fun o => !(siteRoles o.fn o.gctx o.garg).isEmpty) = true := by decide +kernel
-  have h2 : closeSites.all (fun o => !(siteRoles o.fn o.gctx o.garg).isEmpty) = true := by decide +kernel
+    (∀ m ∈ allMsgSends, (siteRoles m.fn m.gctx m.garg).isEmpty = false) := by
+  have h1 : allChanOps.all (fun o => !(siteRoles o.fn o.gctx o.garg).isEmpty) = true := by decide +kernel
+  have h2 : allCloseSites.all (fun o => !(siteRoles o.fn o.gctx o.garg).isEmpty) = true := by decide +kernel
   have h3 : goSites.all (fun o => !(siteRoles o.fn o.gctx o.garg).isEmpty) = true := by decide +kernel
-  have h4 : msgSends.all (fun o => !(siteRoles o.fn o.gctx o.garg).isEmpty) = true := by decide +kernel
+  have h4 : allMsgSends.all (fun o => !(siteRoles o.fn o.gctx o.garg).isEmpty) = true := by decide +kernel
   refine ⟨?_, ?_, ?_, ?_⟩
   · intro o ho; simpa using forall_of_all h1 o ho
   · intro o ho; simpa using forall_of_all h2 o ho
@@ -197,29 +258,62 @@ theorem meta_peer_message_kinds :
     the regenerated channel and lock tables descend the rank
     `Srv > Ext1, A1 > Rtr > Ext2 > A2 > H, MP > R > HM > T > D, B, Mem > Rd > W > C > Net`. A new
     blocking operation whose target is not of lower rank than its goroutine breaks this theorem. -/
-theorem no_wait_cycle_router : Graph.Acyclic routerEdges :=
+theorem no_wait_cycle_router : Graph.Acyclic routerEdgesX :=
   Graph.checkRanks_sound (rank := rank) (by decide +kernel)
+
+theorem router_edges_descend : Graph.Descends routerEdgesX rank :=
+  Graph.checkRanks_descends (by decide +kernel)
+
+/-- The completed table has every edge of the table derived without the closure contexts, and one
+    more: the router goroutine waiting for the client it refuses. -/
+theorem router_edges_completed :
+    (∀ e ∈ routerEdges, e ∈ routerEdgesX) ∧
+    (∀ e ∈ routerEdgesX, e ∈ routerEdges ∨ e = (.Rtr, .C)) ∧ (Role.Rtr, Role.C) ∈ routerEdgesX := by
+  have h1 : routerEdges.all (fun e => routerEdgesX.contains e) = true := by decide +kernel
+  have h2 : routerEdgesX.all (fun e => routerEdges.contains e || decide (e = (.Rtr, .C))) = true := by
+    decide +kernel
+  refine ⟨?_, ?_, by decide +kernel⟩
+  · intro e he; simpa using forall_of_all h1 e he
+  · intro e he; simpa using forall_of_all h2 e he
+
+/-- The edge Rtr → C comes from that one operation: the router goroutine waits for a client nowhere
+    else. -/
+theorem rtr_waits_for_client_only_in_abort :
+    ∀ o ∈ allChanOps, (Role.Rtr, Role.C) ∈ opEdges o →
+      o.key = key! "router.router.AttachClient|send|client.Send()@posted router.actionChan" := by
+  have h : allChanOps.all (fun o => !(opEdges o).contains (Role.Rtr, Role.C) ||
+      Nat.beq o.key (key! "router.router.AttachClient|send|client.Send()@posted router.actionChan")) = true := by
+    decide +kernel
+  intro o ho he
+  have := forall_of_all h o ho
+  have hc : (opEdges o).contains (Role.Rtr, Role.C) = true := by simpa using he
+  simp only [hc, Bool.not_true, Bool.false_or] at this
+  exact Nat.eq_of_beq_eq_true this
+
+example : ∃ o ∈ allChanOps, (Role.Rtr, Role.C) ∈ opEdges o := by
+  have h : (allChanOps.any fun o => (opEdges o).contains (Role.Rtr, Role.C)) = true := by decide +kernel
+  obtain ⟨o, ho, hc⟩ := List.any_eq_true.mp h
+  exact ⟨o, ho, by simpa using hc⟩
 
 /-- Deadlock freedom: in every non-empty set of roles, one waits for nobody in the set. -/
 theorem no_deadlocked_set_router (s : List Role) (hs : s ≠ []) :
-    ∃ a ∈ s, ∀ b, (a, b) ∈ routerEdges → b ∉ s :=
-  Graph.no_deadlocked_set routerEdges rank
-    (Graph.checkRanks_descends (by decide +kernel)) s hs
+    ∃ a ∈ s, ∀ b, (a, b) ∈ routerEdgesX → b ∉ s :=
+  Graph.no_deadlocked_set routerEdgesX rank router_edges_descend s hs
 
 /-- The dealer and the broker wait for nobody; the realm goroutine only for dealer, broker and the
     meta session's handler; that handler only for dealer and broker; a call timer only for the
     dealer. -/
 theorem dealer_broker_wait_for_nobody :
-    (∀ e ∈ routerEdges, e.1 ≠ .D ∧ e.1 ≠ .B) ∧
-    (∀ e ∈ routerEdges, e.1 = .R → e.2 = .D ∨ e.2 = .B ∨ e.2 = .HM) ∧
-    (∀ e ∈ routerEdges, e.1 = .HM → e.2 = .D ∨ e.2 = .B) ∧
-    (∀ e ∈ routerEdges, e.1 = .T → e.2 = .D) := by
-  have h1 : routerEdges.all (fun e => decide (e.1 ≠ .D) && decide (e.1 ≠ .B)) = true := by decide +kernel
-  have h2 : routerEdges.all (fun e => !decide (e.1 = .R) ||
+    (∀ e ∈ routerEdgesX, e.1 ≠ .D ∧ e.1 ≠ .B) ∧
+    (∀ e ∈ routerEdgesX, e.1 = .R → e.2 = .D ∨ e.2 = .B ∨ e.2 = .HM) ∧
+    (∀ e ∈ routerEdgesX, e.1 = .HM → e.2 = .D ∨ e.2 = .B) ∧
+    (∀ e ∈ routerEdgesX, e.1 = .T → e.2 = .D) := by
+  have h1 : routerEdgesX.all (fun e => decide (e.1 ≠ .D) && decide (e.1 ≠ .B)) = true := by decide +kernel
+  have h2 : routerEdgesX.all (fun e => !decide (e.1 = .R) ||
       (decide (e.2 = .D) || decide (e.2 = .B) || decide (e.2 = .HM))) = true := by decide +kernel
-  have h3 : routerEdges.all (fun e => !decide (e.1 = .HM) ||
+  have h3 : routerEdgesX.all (fun e => !decide (e.1 = .HM) ||
       (decide (e.2 = .D) || decide (e.2 = .B))) = true := by decide +kernel
-  have h4 : routerEdges.all (fun e => !decide (e.1 = .T) || decide (e.2 = .D)) = true := by decide +kernel
+  have h4 : routerEdgesX.all (fun e => !decide (e.1 = .T) || decide (e.2 = .D)) = true := by decide +kernel
   refine ⟨?_, ?_, ?_, ?_⟩
   · intro e he; simpa using forall_of_all h1 e he
   · intro e he h; have := forall_of_all h2 e he; simpa [h, or_assoc] using this
@@ -228,7 +322,7 @@ theorem dealer_broker_wait_for_nobody :
 
 /-- Non-vacuity: the check rejects a table with a cycle (the realm goroutine waiting for a session
     handler that waits for it). -/
-example : Graph.checkRanks ((Role.R, Role.H) :: routerEdges) rank = false := by decide +kernel
+example : Graph.checkRanks ((Role.R, Role.H) :: routerEdgesX) rank = false := by decide +kernel
 
 example : ¬ Graph.Acyclic ((Role.R, Role.H) :: (Role.H, Role.R) :: ([] : List (Role × Role))) :=
   fun h => h .R (.cons List.mem_cons_self (.single (List.mem_cons_of_mem _ List.mem_cons_self)))
@@ -239,8 +333,8 @@ example : ¬ Graph.Acyclic ((Role.R, Role.H) :: (Role.H, Role.R) :: ([] : List (
     (`yieldRetryDelay`, doubled each round) and stops retrying at the first wake-up at or after
     `sendResultDeadline` = 60 000 ms: wake-up k happens 2^k − 1 ms after the first attempt, and the
     first k with 2^k − 1 ≥ 60 000 is 16. The callee's handler is therefore held for at most
-    65 535 ms of retries, whatever the caller does (the constants are checked by gen target consts
-    for the L2 model; here only the arithmetic). -/
+    65 535 ms of retries, whatever the caller does (here the arithmetic; `retry_constants` below ties
+    the two constants of dealer.go to the L2 model's, through table (j) of the site tables). -/
 def retryWake : Nat → Nat
   | 0 => 0
   | k + 1 => retryWake k + 2 ^ k
@@ -251,5 +345,143 @@ theorem retry_schedule :
   intro k hk
   have : ∀ k, k < 16 → retryWake k < 60000 := by decide
   exact this k hk
+
+/-- The two constants of the retry loop, regenerated from dealer.go (`const sendResultDeadline =
+    time.Minute`, `yieldRetryDelay = time.Millisecond`; table (j), nanoseconds), are the constants
+    of the L2 model (`Realm.handleYield`, `Realm.retryDue`), and the schedule above is stated for
+    them. (Table (j) is in Nexus/L3/WpL3Tables.lean until the gen patch is applied.) -/
+theorem retry_constants :
+    lookup (key! "router.sendResultDeadline") Nexus.L3.WpL3Tables.durationConsts =
+      some (Nexus.L2.Realm.sendResultDeadlineMs * 1000000) ∧
+    lookup (key! "router.yieldRetryDelay") Nexus.L3.WpL3Tables.durationConsts =
+      some (Nexus.L2.Realm.yieldRetryDelayMs * 1000000) ∧
+    (∀ k, k < 16 → retryWake k * Nexus.L2.Realm.yieldRetryDelayMs < Nexus.L2.Realm.sendResultDeadlineMs) ∧
+    Nexus.L2.Realm.sendResultDeadlineMs ≤ retryWake 16 * Nexus.L2.Realm.yieldRetryDelayMs := by
+  refine ⟨by decide +kernel, by decide +kernel, ?_, by decide⟩
+  intro k hk
+  have : ∀ k, k < 16 → retryWake k * Nexus.L2.Realm.yieldRetryDelayMs < Nexus.L2.Realm.sendResultDeadlineMs := by
+    decide
+  exact this k hk
+
+/-! ### From "no cycle" to "no wedge" (audit C §0, (a)3)
+
+`no_deadlocked_set_router` finds in every set of roles one that "waits for nobody in the set" — which
+a *terminated* server does too. Progress needs the targets of the wait edges to be alive. -/
+
+section Progress
+open Nexus.L3.WpL3.Progress Nexus.L3.WpL3.Serve Nexus.L3.WpL3.ServeModel Nexus.L3.CloseModel Nexus.L3.Shutdown
+
+/-- **No wait cycle ∧ servers keep serving ⇒ progress**, for the router's wait-for table: in any
+    snapshot whose waits are edges of the regenerated table and in which nobody waits for a goroutine
+    that has terminated, every blocked goroutine's wait chain ends at one that is running. The second
+    hypothesis is what `C06.servers_keep_serving` / `blocked_posters_reach_running_server` establish
+    for the realm's servers. -/
+theorem router_progress (s : Snapshot Role)
+    (hsub : ∀ a b, s.waits a b → (a, b) ∈ routerEdgesX)
+    (hblk : ∀ a, s.status a = .blocked → ∃ b, s.waits a b)
+    (hserve : ∀ a b, s.waits a b → s.status b ≠ .done)
+    (a : Role) (ha : s.status a = .blocked) : ∃ z, Chain s.waits a z ∧ s.status z = .running :=
+  no_cycle_and_serving_give_progress routerEdgesX no_wait_cycle_router s hsub hblk hserve a ha
+
+/-- Hypotheses of `router_progress`: a session handler blocked on the realm goroutine, which runs. -/
+example : ∃ s : Snapshot Role,
+    (∀ a b, s.waits a b → (a, b) ∈ routerEdgesX) ∧ (∀ a, s.status a = .blocked → ∃ b, s.waits a b) ∧
+    (∀ a b, s.waits a b → s.status b ≠ .done) ∧ s.status .H = .blocked := by
+  refine ⟨⟨fun r => if r = .H then .blocked else .running, fun a b => a = .H ∧ b = .R⟩, ?_, ?_, ?_, rfl⟩
+  · rintro a b ⟨rfl, rfl⟩; decide +kernel
+  · intro a h
+    by_cases e : a = .H
+    · exact ⟨.R, e, rfl⟩
+    · simp [e] at h
+  · rintro a b ⟨rfl, rfl⟩; decide
+
+/-- The served-channel instance, with nothing assumed about the servers. In every configuration of
+    the realm's shutdown system reachable by guarded steps (guards computed from the exit table,
+    `C06.servers_guarded`), let `blockedIn` say which roles are blocked in a post to — or waiting for
+    the answer from — which served channel (`C06.server_waits_classified`: these are the waits for the
+    realm's servers). Then the chain poster → server → … from every blocked role ends, after at most
+    three hops (H → R → HM → D), at a server that is alive and not blocked: nobody is wedged on a
+    channel whose reader has left. The realm goroutine posts on behalf of a session handler that
+    waits for it (`CloseModel.shutdownRole`), so "alive" for `R` as a *poster* means that handler. -/
+theorem blocked_posters_reach_running_server (prog : List I) (hp : realmCloseProg = some prog)
+    {c : Cfg Role SChan SFlag} (hreach : Nexus.C06.GReachRealm prog c)
+    (blockedIn : Role → Option SChan)
+    (hb : ∀ a ch, blockedIn a = some ch → (a, ch) ∈ rawPostPairs ∧ 0 < c.alive (shutdownRole a)) :
+    ∀ a ch, blockedIn a = some ch →
+      ∃ z, Chain (fun x y => ∃ ch', blockedIn x = some ch' ∧ serverOf ch' = y) a z ∧
+        0 < c.alive z ∧ blockedIn z = none := by
+  let snap : Snapshot Role :=
+    { status := fun x => match blockedIn x with
+        | some _ => .blocked
+        | none => if 0 < c.alive x then .running else .done
+      waits := fun x y => ∃ ch', blockedIn x = some ch' ∧ serverOf ch' = y }
+  have hdesc : ∀ p ∈ rawPostPairs, rank (serverOf p.2) < rank p.1 := by
+    have h : rawPostPairs.all (fun p => decide (rank (serverOf p.2) < rank p.1)) = true := by
+      decide +kernel
+    intro p hp'
+    exact of_decide_eq_true (forall_of_all h p hp')
+  have hmap : ∀ p ∈ rawPostPairs, posts (shutdownRole p.1) p.2 = true := by
+    have h : rawPostPairs.all (fun p => posts (shutdownRole p.1) p.2) = true := by decide +kernel
+    exact forall_of_all h
+  have hlive : Live snap rank :=
+    { descends := by
+        rintro x y ⟨ch', h1, h2⟩
+        subst h2
+        exact hdesc (x, ch') (hb x ch' h1).1
+      blockedWaits := by
+        intro x hx
+        cases h : blockedIn x with
+        | some ch' => exact ⟨serverOf ch', ch', h, rfl⟩
+        | none =>
+          simp only [snap, h] at hx
+          split at hx <;> cases hx
+      serving := by
+        rintro x y ⟨ch', h1, h2⟩
+        subst h2
+        obtain ⟨hm, hal⟩ := hb x ch' h1
+        have hs := Nexus.C06.servers_keep_serving prog hp hreach (shutdownRole x) ch' (hmap _ hm) hal
+        show (match blockedIn (serverOf ch') with
+          | some _ => Status.blocked
+          | none => if 0 < c.alive (serverOf ch') then Status.running else Status.done) ≠ .done
+        cases blockedIn (serverOf ch') with
+        | some _ => intro h; cases h
+        | none => simp [hs] }
+  intro a ch ha
+  have hblocked : snap.status a = .blocked := by simp [snap, ha]
+  obtain ⟨z, hc, hz⟩ := chain_ends_running snap rank hlive a hblocked
+  refine ⟨z, hc, ?_⟩
+  have hz' : (match blockedIn z with
+      | some _ => Status.blocked
+      | none => if 0 < c.alive z then Status.running else Status.done) = .running := hz
+  cases hbz : blockedIn z with
+  | some _ => rw [hbz] at hz'; cases hz'
+  | none =>
+    rw [hbz] at hz'
+    refine ⟨?_, rfl⟩
+    by_cases hp0 : 0 < c.alive z
+    · exact hp0
+    · simp [hp0] at hz'
+
+/-- Non-vacuity: a configuration and a `blockedIn` that satisfy the hypotheses — a session handler
+    blocked on the realm goroutine (onLeave), the realm goroutine blocked on the meta session's
+    handler (`dealer.removeSession` announcing an unregistration), that handler blocked on the dealer —
+    and the chain the theorem yields ends at the dealer. -/
+example (prog : List I) (hp : realmCloseProg = some prog) :
+    ∃ (c : Cfg Role SChan SFlag) (blockedIn : Role → Option SChan),
+      Nexus.C06.GReachRealm prog c ∧
+      (∀ a ch, blockedIn a = some ch → (a, ch) ∈ rawPostPairs ∧ 0 < c.alive (shutdownRole a)) ∧
+      blockedIn .H = some .realmChan ∧ blockedIn .R = some .metaChan ∧ blockedIn .HM = some .dealerChan ∧
+      ∃ z, Chain (fun x y => ∃ ch', blockedIn x = some ch' ∧ serverOf ch' = y) .H z ∧
+        0 < c.alive z ∧ blockedIn z = none := by
+  let b : Role → Option SChan := fun r =>
+    match r with | .H => some .realmChan | .R => some .metaChan | .HM => some .dealerChan | _ => none
+  have h0 : Nexus.C06.GReachRealm prog Nexus.C06.exCfg := GReach.init (Nexus.C06.exCfg_init prog)
+  have hb : ∀ a ch, b a = some ch → (a, ch) ∈ rawPostPairs ∧ 0 < Nexus.C06.exCfg.alive (shutdownRole a) := by
+    intro a ch h
+    cases a <;> simp only [b] at h <;> (try cases h) <;> exact ⟨by decide +kernel, by decide⟩
+  exact ⟨Nexus.C06.exCfg, b, h0, hb, rfl, rfl, rfl,
+    blocked_posters_reach_running_server prog hp h0 b hb .H .realmChan rfl⟩
+
+end Progress
 
 end Nexus.C07
